@@ -108,11 +108,11 @@ func c32F(typ, flags byte, stream uint32, payload ...byte) c32Raw {
 // ---------------------------------------------------------------- harness state
 
 type c32H struct {
-	r        *vk.Run
-	out      map[string]int64
-	buf      []byte
-	spans    [][2]int
-	nontriv  int64
+	r       *vk.Run
+	out     map[string]int64
+	buf     []byte
+	spans   [][2]int
+	nontriv int64
 }
 
 func (h *c32H) outcome(s string) { h.out[s]++ }
